@@ -125,8 +125,25 @@ def check_mstep_shapes(P, R):
         R.violation("SHAPE.mstep", f.key, "self._D = A2 / A1", "the D M-step no longer stores the new D")
     for st, t, v, k in stores(f):
         if isinstance(t, ast.Attribute) and t.attr == "_D":
-            ok = isinstance(v, ast.BinOp) and isinstance(v.op, ast.Div) and "A2" in src(v.left) and "A1" in src(v.right)
+            ok = isinstance(v, ast.BinOp) and isinstance(v.op, ast.Div) and _acc_index(P, f, v.left) == 1 and _acc_index(P, f, v.right) == 0
             R.check(ok, "SHAPE.mstep", f.key, f"{src(t)} = {src(v)}", "element-wise A2 / A1", "D is not the element-wise quotient A2 / A1 of the two supervector-sized accumulators", st.lineno)
+
+
+def _acc_index(P, f, e):
+    """Which component (0 = A1, 1 = A2) of the per-class results does this accumulator collect?  Follows
+    `a, b = reduce_iadd(la, lb)` and `la = [acc[i] for acc in <param>]`."""
+    du = get_defuse(f, P)
+    if not isinstance(e, ast.Name):
+        return None
+    st = du.stmt_of(e)
+    for d in du.reaching(st, e.id):
+        if d.how == "unpack" and isinstance(d.value, ast.Call) and d.index is not None and d.index < len(d.value.args):
+            a = d.value.args[d.index]
+            if isinstance(a, ast.Name):
+                for d2 in du.reaching(d.stmt, a.id):
+                    if isinstance(d2.value, ast.ListComp) and isinstance(d2.value.elt, ast.Subscript):
+                        return const_value(d2.value.elt.slice)
+    return None
 
 
 ACC = {
